@@ -21,6 +21,7 @@ func rulesC18(c *Ctx) {
 	c.Explain = append(c.Explain,
 		"C18 (attestation quotes accepted only as signed and within policy) — decided, with the package-level unsafe* switches assumed false: Quote.Verify can return a verified quote only through the full obligation tree — policy not disabled; debug/production mode match; TDX policy present and satisfied for TDX; quote signature verification, which requires: PCK certificate chain of length 3 verified to the Intel trust roots at the given time with the expected root, FMSPC extracted, QE report signature under the PCK key over the raw QE report, QE report data = SHA-256(attestation key ‖ authentication data) followed by zeros, TCB bundle present and verified (TCB signing chain of length 2 to the Intel roots at the given time; QE identity and TCB info each signature-verified over their raw JSON, decoded from those same bytes, and validated for id/version/issue date/validity period/evaluation number/whitelist/blacklist; QE identity matched against the QE report; FMSPC equal to the PCK's; TCB level status acceptable), and the ECDSA quote signature under the attestation key over header.Raw()‖reportBody.Raw(); the identity and report data returned are read from the same report body that was signed; the unsafe switches are only written by their setters, which are only called from debug/test tooling.",
 		"NOT decided: correctness of x509/ECDSA/SHA-256, time-window arithmetic at the boundaries, TCB level matching logic (getTCBLevel), TDX module policy semantics.")
+	c18Round2(c)
 	c.AssumeFalse = `^\*global:common/sgx/pcs\.unsafe(SkipVerify|LaxVerify)$`
 	ix := c.P.BuildIndex()
 	spec := map[string][]c18ob{
@@ -302,4 +303,59 @@ func rulesC18(c *Ctx) {
 	for _, s := range []string{"SetSkipVerify", "SetAllowDebugEnclaves", "SetUnsafeLaxVerify"} {
 		c.WhoMayCall(ix, "C18.who", pkPCS+"."+s, []string{"oasis-node/cmd/", "oasis-test-runner/", "oasis-net-runner/", "common/sgx/", "runtime/host/tests/", "common/node/"}, "unsafe switches are set only by debug/test tooling")
 	}
+}
+
+// c18Round2: a TDX module whose matched TCB level is not UpToDate is rejected (round 2).
+// getTCBLevel, on the TDX branch, matches the TDX module's TCB level; every success return reached after that match
+// (the matched level is not nil) must pass the edge on which its Status equals StatusUpToDate.
+func c18Round2(c *Ctx) {
+	const rule = "C18.must"
+	fn := c.needFn(rule, "common/sgx/pcs.(*TCBInfo).getTCBLevel")
+	if fn == nil {
+		return
+	}
+	c.Analysed[fname(fn)] = true
+	up, ok := c.ConstInt("common/sgx/pcs", "StatusUpToDate")
+	inst := fname(fn) + ":TDX module level matched⇒status UpToDate"
+	if !ok {
+		c.Fail(rule, inst, c.P.Pos(fn.Pos()), "constant StatusUpToDate not found")
+		return
+	}
+	// start: the not-nil edge of the nil test on the matched TDX module level
+	var start []Edge
+	for _, b := range fn.Blocks {
+		ifi := lastIfOf(b)
+		if ifi == nil {
+			continue
+		}
+		s := normCond(ifi.Cond, false)
+		if strings.Contains(s, "TDXModuleIdentities") && strings.Contains(s, ".TCBLevels") && strings.HasSuffix(s, " != nil") {
+			start = append(start, Edge{b, 1})
+		}
+	}
+	cut := NewCut()
+	nG := 0
+	for _, b := range fn.Blocks {
+		ifi := lastIfOf(b)
+		if ifi == nil {
+			continue
+		}
+		for pol, idx := range map[bool]int{true: 0, false: 1} {
+			s := normCond(ifi.Cond, pol)
+			if strings.Contains(s, "TDXModuleIdentities") && strings.HasSuffix(s, ".Status == "+itoa(int(up))) {
+				cut.AddEdges(Edge{b, idx})
+				nG++
+			}
+		}
+	}
+	if len(start) == 0 {
+		c.Fail(rule, inst, c.P.Pos(fn.Pos()), "the match of the TDX module's TCB level (nil test of the matched level) was not found in getTCBLevel")
+		return
+	}
+	hit := Reach(fn, nil, start, anyOf(SuccessReturns(fn)), cut)
+	site := c.P.Pos(fn.Pos())
+	if hit != nil {
+		site = c.P.InstrPos(hit)
+	}
+	c.Check(nG > 0 && hit == nil, rule, inst, site, "every success return after the TDX module level was matched passes Status == StatusUpToDate", "getTCBLevel can succeed for a TDX quote whose TDX module's matched TCB level is not UpToDate (OutOfDate, Revoked, …): a module that Intel's signed TCB info marks as vulnerable is accepted")
 }
